@@ -107,3 +107,206 @@ def engine():
 
 
 VERIFY = [FindSource(), HandleNoconn()]
+
+
+# ---------------------------------------------------------------------------------------------------------------------
+# resolve_portref(pref, to): idempotent for the same referent, refuses a second different one, otherwise records the
+# referent, connects the referring instance's own port to it (through _Instance.connect) and hands the dependents over
+# to update_ref_deps - in that order and exactly once each.
+# ---------------------------------------------------------------------------------------------------------------------
+from hdl21.instance import Instance, InstanceArray, InstanceBundle
+
+
+class ConnectCallee(Contract):
+    key = "hdl21.instance:_Instance.connect"
+    pure = False
+    raises = (TypeError,)
+    returns = "opaque"
+
+    def scenarios(self, eng):
+        return []
+
+    def frame(self, eng, st, a):
+        for f in ("conns", "_connected_ports", "all", "portrefs", "connrefs"):
+            st.heap.havoc_field(f)
+
+
+class UpdateRefDeps(Contract):
+    key = "hdl21.elab.helpers.resolve_ref_types:update_ref_deps"
+    pure = False
+    raises = (RuntimeError, TypeError, KeyError)
+    returns = "none"
+
+    def scenarios(self, eng):
+        return []
+
+    def frame(self, eng, st, a):
+        for f in ("conns", "_connected_ports", "parent", "parts", "_inner"):
+            if f in st.heap.schema:
+                st.heap.havoc_field(f)
+
+
+class ResolvePortref(Contract):
+    key = "hdl21.elab.passes.portrefs:resolve_portref"
+    props = ("C01", "C04")
+    pure = False
+    raises = (ValueError, TypeError, RuntimeError, KeyError)
+    returns = "none"
+
+    def scenarios(self, eng):
+        def setup(eng, st):
+            eng.field_classes["inst"] = (Instance, InstanceArray, InstanceBundle)
+            eng.field_classes["resolved"] = SOURCES
+            pref = sym_ref(st, "pref", (PortRef,))
+            inst = st.heap.get("inst", pref.z)
+            st.assume(z3.And(inst != NULL, st.heap.get("$alive", inst), st.heap.get("_initialized", inst)))
+            st.assume(z3.Or([st.heap.get("$cls", inst) == st.classid(k) for k in eng.field_classes["inst"]]))
+            return {"pref": pref, "to": sym_ref(st, "to", SOURCES)}
+        yield Scenario("any-state-of-the-reference", setup)
+
+    def p_resolved(self, eng, st0, st, a, res):
+        r0 = st0.heap.get("resolved", a.pref.z)
+        connects = [c for c in st.calls if c[0] == ConnectCallee.key]
+        updates = [c for c in st.calls if c[0] == UpdateRefDeps.key]
+        already = r0 == a.to.z
+        if not connects and not updates:
+            # nothing done: only right when it was resolved to this very object already
+            return z3.And(already, st.heap.arr("resolved") == st0.heap.arr("resolved"))
+        ok = len(connects) == 1 and len(updates) == 1 and connects[0][1].conn is a.to and updates[0][1].ref is a.pref \
+            and updates[0][1].resolved is a.to and isinstance(connects[0][1].self, SRef)
+        if not ok:
+            return False
+        return z3.And(r0 == NULL, st.heap.get("resolved", a.pref.z) == a.to.z,
+                      connects[0][1].self.z == st0.heap.get("inst", a.pref.z),
+                      zstr(connects[0][1].portname) == st0.heap.get("portname", a.pref.z))
+    posts = property(lambda self: [("recorded-connected-propagated", self.p_resolved)])
+    reasons = property(lambda self: {ValueError: lambda eng, st0, a: z3.And(
+        st0.heap.get("resolved", a.pref.z) != NULL, st0.heap.get("resolved", a.pref.z) != a.to.z)})
+    must_raise = property(lambda self: [("already-resolved-to-another", lambda eng, st0, a: z3.And(
+        st0.heap.get("resolved", a.pref.z) != NULL, st0.heap.get("resolved", a.pref.z) != a.to.z))])
+
+
+def resolve_engine():
+    return mk_engine(contracts=[ConnectCallee(), UpdateRefDeps()])
+
+
+VERIFY_RESOLVE = [ResolvePortref()]
+
+
+def update_ref_deps_obligations():
+    """update_ref_deps(ref, resolved): the three loop bodies located in the current source, each executed for one
+    arbitrary element: (1) a connected port is re-connected through replace(portname, resolved); (2) a dependent slice
+    gets `resolved` as parent; (3) a dependent concatenation keeps its parts in order with every occurrence of the
+    reference (and nothing else) replaced - concatenations of 1 to 3 parts (tuple arity is unrolled: bounded in the arity,
+    symbolic in the parts)."""
+    import ast
+    from pyvc import loader
+    from pyvc.engine import Frame
+    key = UpdateRefDeps.key
+    ext = loader.extract(key)
+    info = {"sha": ext.sha, "lines": ext.lines, "path": ext.path, "paths": 0, "scenarios": 0, "unsupported": []}
+    loops = [n for n in ast.walk(ext.node) if isinstance(n, ast.For)]
+    obs = []
+
+    class ReplaceCallee(Contract):
+        key = "hdl21.instance:_Instance.replace"
+        pure = False
+        raises = (KeyError, TypeError)
+        returns = "opaque"
+
+        def scenarios(self, eng):
+            return []
+
+        def frame(self, eng, st, a):
+            for f in ("conns", "_connected_ports"):
+                st.heap.havoc_field(f)
+
+    def run_body(loop, setup, judge, tag):
+        eng = mk_engine(contracts=[ReplaceCallee()])
+        eng.field_classes["inst"] = (Instance, InstanceArray, InstanceBundle)
+        eng.field_classes["parent"] = SOURCES + (PortRef,)
+        st = eng.new_state()
+        ref = sym_ref(st, "ref", (PortRef,))
+        resolved = sym_ref(st, "resolved", SOURCES)
+        st.locals = {"ref": ref, "resolved": resolved}
+        extra = setup(eng, st, ref, resolved)
+        st.locals.update(extra)
+        st0 = st.fork()
+        eng.frames.append(Frame(ext, ext.key))
+        eng.cuts = []
+        try:
+            outs = eng.exec_block(loop.body, st)
+        except Unsupported as e:
+            info["unsupported"].append(f"{tag}: {e}")
+            return
+        finally:
+            eng.frames.pop()
+        info["scenarios"] += 1
+        for pi, (kind, s2, v) in enumerate(outs):
+            info["paths"] += 1
+            if kind == "exc":
+                continue
+            goal = judge(eng, st0, s2, ref, resolved, extra)
+            obs.append(Obligation(f"{key}/{tag}/p{pi}/post", "post", list(s2.pc), zbool(goal) if goal not in (True, False)
+                                  else z3.BoolVal(goal), key, tag, pi,
+                                  {"trace": list(s2.trace), "havoc": list(s2.ghost.get("havoc", ()))}))
+
+    for loop in loops:
+        src = ast.unparse(loop.iter)
+        tgt = loop.target.id if isinstance(loop.target, ast.Name) else None
+        if "_connected_ports" in src and tgt:
+            def setup(eng, st, ref, resolved, tgt=tgt):
+                cp = sym_ref(st, "connected_port", (PortRef,))
+                inst = st.heap.get("inst", cp.z)
+                st.assume(z3.And(inst != NULL, st.heap.get("$alive", inst)))
+                st.assume(z3.Or([st.heap.get("$cls", inst) == st.classid(k) for k in (Instance, InstanceArray, InstanceBundle)]))
+                return {tgt: cp}
+
+            def judge(eng, st0, s2, ref, resolved, extra, tgt=tgt):
+                calls = [c for c in s2.calls if c[0] == "hdl21.instance:_Instance.replace"]
+                if len(calls) != 1 or calls[0][1].conn is not resolved or not isinstance(calls[0][1].self, SRef):
+                    return False
+                cp = extra[tgt]
+                return z3.And(calls[0][1].self.z == st0.heap.get("inst", cp.z),
+                              zstr(calls[0][1].portname) == st0.heap.get("portname", cp.z))
+            run_body(loop, setup, judge, "connected-port")
+        elif "_slices" in src and tgt:
+            def setup(eng, st, ref, resolved, tgt=tgt):
+                sl = sym_ref(st, "slice_", (Slice,))
+                st.assume(st.heap.get("parent", sl.z) == ref.z)
+                return {tgt: sl}
+
+            def judge(eng, st0, s2, ref, resolved, extra, tgt=tgt):
+                return s2.heap.get("parent", extra[tgt].z) == resolved.z
+            run_body(loop, setup, judge, "dependent-slice")
+        elif "_concats" in src and tgt:
+            for arity in (1, 2, 3):
+                for pos in range(arity):
+                    def setup(eng, st, ref, resolved, tgt=tgt, arity=arity, pos=pos):
+                        cc = sym_ref(st, "concat", (Concat,))
+                        parts = []
+                        for k in range(arity):
+                            if k == pos:
+                                parts.append(ref)
+                            else:
+                                p = sym_ref(st, f"part{k}", (Signal, Slice))
+                                st.assume(p.z != ref.z)
+                                parts.append(p)
+                        eng.write_field(st, cc, "parts", tuple(parts))
+                        return {tgt: cc, "$parts": tuple(parts), "$pos": pos}
+
+                    def judge(eng, st0, s2, ref, resolved, extra, tgt=tgt):
+                        got = eng.read_field(s2, extra[tgt], "parts")[0][1]
+                        want = extra["$parts"]
+                        if not isinstance(got, tuple) or len(got) != len(want):
+                            return False
+                        cs = []
+                        for k, (g, w_) in enumerate(zip(got, want)):
+                            if not isinstance(g, SRef):
+                                return False
+                            cs.append(g.z == (resolved.z if k == extra["$pos"] else w_.z))
+                        return z3.And(cs)
+                    run_body(loop, setup, judge, f"dependent-concat/arity{arity}/pos{pos}")
+    if len(loops) < 3:
+        info["unsupported"].append(f"expected three loops in update_ref_deps, found {len(loops)}")
+    return key, obs, info
